@@ -198,9 +198,11 @@ PROPS['C13'] = dict(
          'generators of the absorbed class and of the surviving class before and after, and for every shrink_slots the retained slots '
          'and the generators before and after; Grpw.mergeOK demands that every old generator of the survivor and every transported '
          'generator N;g;N^-1 of the absorbed class is a member of the new group and that every new generator is a member of the group '
-         'those generate; Grpw.shrinkOK that the new group is the group of the restricted cap-preserving generators. '
+         'those generate; Grpw.shrinkOK that the new group is the group of the restricted cap-preserving generators; Grpw.addOK (every Group::add of '
+         'union_leaders / determine_self_symmetries) that the new group is exactly the group of the old generators and the added permutation, '
+         'which for a self-union id[l] = id[r] must be r ; l^-1. '
          'non-trivial = some operation logged a shrink or addsym event; distinct = by hash of the case line',
-    trusted_base=EG_TRUST + ['event hooks (alloc/merge/shrink/addsym call sites, commit 01d0fa8) are assumed to sit at every place that changes the measure; a missing site shows up as a stepOK failure', 'the write-log hook (commit e7aaaef) sits in unionfind_set, the only writer of the table besides the path-compression write-back (modelled separately, compress_preserves_find); a write that bypassed it shows up as a resolution mismatch', 'the group-log hook (commit a524cf1) sits in move_to and shrink_slots; the other places that change a group (union_leaders on a self-union, determine_self_symmetries: Group::add of a proven symmetry) are not contract-checked, their effect is judged by the eq / symmetry-count observables of the histories'],
+    trusted_base=EG_TRUST + ['event hooks (alloc/merge/shrink/addsym call sites, commit 01d0fa8) are assumed to sit at every place that changes the measure; a missing site shows up as a stepOK failure', 'the write-log hook (commit e7aaaef) sits in unionfind_set, the only writer of the table besides the path-compression write-back (modelled separately, compress_preserves_find); a write that bypassed it shows up as a resolution mismatch', 'the group-log hook (commit a524cf1) sits in move_to and shrink_slots; the two Group::add sites of the e-graph (union_leaders on a self-union, determine_self_symmetries) are logged by commit 6820234 and judged by Grpw.addOK; a refactoring that removes a call site removes its log entries (missing, not wrong)'],
     assumptions=COMMON_ASSUME + ['every 9 operations and at the end: Extractor::extract (AstSize) from every handle ever returned; the result must be represented and eq to the handle',
                                  'a rewrite iteration (2-3 pool rules chosen by position) every 11 operations, judged by the same event model'],
 )
